@@ -318,6 +318,27 @@ func manifest() int {
 	for _, id := range naIDs {
 		na = append(na, map[string]any{"property_id": id, "reason": props.NotApplicable[id]})
 	}
+	// every given property that is neither claimed nor declared not applicable
+	// is listed as not claimed (check not finished) so that the list is complete
+	if f, err := os.Open(filepath.Join(defaultVerifDir(), "properties.jsonl")); err == nil {
+		dec := json.NewDecoder(f)
+		for {
+			var pr struct {
+				ID string `json:"id"`
+			}
+			if dec.Decode(&pr) != nil {
+				break
+			}
+			if _, ok := props.Registry[pr.ID]; ok {
+				continue
+			}
+			if _, ok := props.NotApplicable[pr.ID]; ok {
+				continue
+			}
+			na = append(na, map[string]any{"property_id": pr.ID, "reason": "not claimed: the static rules designed for it in DESIGN.md section 3 are not implemented (yet); no verdict is given rather than a claim on paper"})
+		}
+		f.Close()
+	}
 	man := map[string]any{
 		"version":   1,
 		"setup_cmd": "cd checker && GOFLAGS=-mod=vendor GOPROXY=off GOSUMDB=off GOTOOLCHAIN=local GOWORK=off go build -o ../bin/gohbase-verif .",
